@@ -97,4 +97,5 @@ def parse_duration_us(s: str) -> int:
 
 
 def td_us(td: datetime.timedelta) -> int:
-    return (td.days * 86400 + td.seconds) * 1_000_000 + td.microseconds
+    # (the base class's exact integer division: a subclass may re-define what .days/.seconds mean)
+    return datetime.timedelta.__floordiv__(td, datetime.timedelta(microseconds=1))
